@@ -27,13 +27,15 @@ def sources(tier, wd, out, per_focus_quick=250, per_focus_thorough=1200, foci=FO
             seen.add(svg)
             res.append((f, svg, d))
     import itertools
-    for n in (3, 4):
-        for perm in itertools.permutations(["ga", "gb", "gc", "gd"][:n]):
+    idsets = [["ga", "gb", "gc"], ["ga", "gb", "gc", "gd"], ["grad", "GRAD", "zed"], ["Ab", "aB", "ab", "b"]]
+    for ids_ in idsets:
+        for perm in itertools.permutations(ids_):
             defs = "".join('<linearGradient id="%s" x2="%d" gradientUnits="userSpaceOnUse"><stop offset="0" '
                            'stop-color="red"/><stop offset="1" stop-color="blue"/></linearGradient>' % (g, 3 + k)
                            for k, g in enumerate(perm))
+            plain = ids_[0] not in ("ga",)      # the case-variant sets: every gradient survives as it is
             body = "".join('<rect x="%d" y="1" width="3" height="9" fill="url(#%s)"%s/>'
-                           % (1 + 4 * k, g, ' transform="translate(0,%d)"' % k if k % 2 else "")
+                           % (1 + 4 * k, g, ' transform="translate(0,%d)"' % k if (k % 2 and not plain) else "")
                            for k, g in enumerate(sorted(perm)))
             res.append(("family/gradient-order", '<svg xmlns="http://www.w3.org/2000/svg" viewBox="0 0 16 16">'
                         '<defs>%s</defs>%s</svg>' % (defs, body), None))
